@@ -181,10 +181,46 @@ func runC08(rc *RunCtx) {
 		rc.Probe("ctor_refused")
 		return
 	}
+	// a call that gave up must leave the client usable: sometimes another call follows on the same client
+	var follow *C1
+	if sc.Fault == FStall && !rc.Scen.Has("prefix") && rc.Scen.Chance(1, 3) {
+		if rc.Scen.Choose(2) == 0 {
+			c := *sc // the transport stalls again
+			c.Then = nil
+			follow = &c
+		} else if n, ok := genC07Kind(rc, int(sc.Kind)); ok {
+			n.ReadTimeout, n.PortTimeout, n.TOStyle, n.Flusher, n.WriteTimeout = sc.ReadTimeout, sc.PortTimeout, sc.TOStyle, sc.Flusher, sc.WriteTimeout
+			if need := 2*totalGap(n.Chunks) + 50*time.Millisecond; sc.ReadTimeout < need {
+				n.Chunks = []Chunk{{N: len(n.Reply)}} // keep the first call's timeout: deliver the healthy reply at once
+			}
+			n.Then = nil
+			follow = n
+		}
+		sc.Then = follow
+	}
 	out := RunC1(rc, sc)
 	rc.Desc = sc.describe()
 	rc.Nontrivial = true
 	checkC08(rc, sc, out)
+	if follow != nil && out.Returned && out.Panic == nil {
+		rc.Probe("followup_call_after_timeout")
+		base := fmt.Sprintf("client=%s|fault=%s|followup", sc.Kind, sc.Fault)
+		if len(out.Next) == 0 || !out.Next[0].Returned {
+			rc.Violate("hang", base, "the call after a timed-out call on the same client did not return (hang=%v)", out.Hang)
+			return
+		}
+		o := out.Next[0]
+		bound := sc.ReadTimeout + 500*time.Microsecond + time.Millisecond
+		if sc.Kind == KSerial {
+			bound = sc.ReadTimeout + sc.PortTimeout + 30*time.Millisecond + time.Millisecond
+		}
+		if o.Elapsed > bound {
+			rc.Violate("unbounded", base, "the follow-up call returned after %v simulated; bound %v", o.Elapsed, bound)
+		}
+		if follow.Fault == FStall {
+			checkC08(rc, follow, o) // the same obligations as for the first call
+		}
+	}
 }
 
 func checkC08(rc *RunCtx, sc *C1, out *C1Outcome) {
